@@ -24,7 +24,7 @@ def tus_of(spec):
 HARNESSES = [
     {
         "name": "parse_options",
-        "props": ["C13", "C10", "C08", "C15", "C07"],
+        "props": ["C13", "C10", "C08", "C15", "C07", "C02"],
         "safety_props": ["C13"],
         "src": "h_parse_options.c",
         "contracts": ["public.h"],
@@ -103,7 +103,7 @@ HARNESSES += [
 
 
 HARNESSES += [
-    {"name": "setup_input", "props": ["C02", "C17", "C05", "C04", "C13", "C14"], "src": "h_setup_input.c",
+    {"name": "setup_input", "props": ["C02", "C17", "C05", "C04", "C13", "C14", "C09"], "src": "h_setup_input.c",
      "contracts": ["public.h"], "includes": ["reproc.c"], "enforce": "setup_input", "loop_contracts": True,
      "replace": ["now"], "defs": {"VERIF_LOOP_CONTRACTS": None, "VERIF_MAX_BUF": "(1ul<<40)"},
      "what": "setup_input with a loop contract (invariant: cursor == written, nothing slept; variant size - written): "
@@ -123,7 +123,7 @@ HARNESSES += [
      "defs": {"SIDE_PARENT": None}, "unwind": 34,
      "what": "process_fork, parent side of fork, every OS call fallible: mask and descriptors restored on every return, "
              "success is a live child, failure leaves no child"},
-    {"name": "process_fork_child", "props": ["C11", "C12", "C04", "C10"], "src": "h_process_fork.c",
+    {"name": "process_fork_child", "props": ["C11", "C12", "C04", "C10", "C02"], "src": "h_process_fork.c",
      "contracts": ["public.h"], "includes": ["process.posix.c"], "enforce": "process_fork",
      "replace": ["fd_in_set"], "loop_contracts": True,
      "defs": {"SIDE_CHILD": None, "VERIF_LOOP_CONTRACTS": None}, "unwind": 34, "must_fail": ["reach/_exit"],
@@ -218,7 +218,7 @@ HARNESSES += [
                 "path length symbolic up to 2^30; byte contents abstracted (ghost string lengths)",
      "what": "path_prepend_cwd: every access inside the buffer it allocated for any path length, result layout cwd + '/' + path "
              "+ NUL, NULL with errno set and nothing leaked on any failure (getcwd error, calloc/realloc failure)"},
-    {"name": "path_is_relative", "props": ["C03"], "src": "h_path.c", "contracts": ["public.h"],
+    {"name": "path_is_relative", "props": ["C03", "C14"], "src": "h_path.c", "contracts": ["public.h"],
      "includes": ["process.posix.c"], "defs": {"VERIF_PATHLEN": "4"}, "defs_thorough": {"VERIF_PATHLEN": "7"},
      "unwind": 7, "unwind_thorough": 10,
      "bounded": "path strings of at most 4 (quick) / 7 (thorough) characters (CBMC's strlen/strchr models unrolled)",
